@@ -11,6 +11,7 @@ blocks may read their own output, CBlocks may send on_output events to SBlocks (
 -/
 import EdzedModel.Burst
 import EdzedProofs.Burst
+import EdzedProofs.SimTie
 import EdzedModel.Gen.Translated
 
 namespace Edzed.Burst
@@ -232,10 +233,106 @@ example : isPotB diamond0 (tbl (pathTable diamond0)) = true
 end Edzed.Burst
 
 namespace Edzed.TrTie
+open Edzed.Sim Edzed.Burst Edzed.SimTie Edzed.Gen.TrL
 
 /-- the model's limit IS the translated right-hand side of `eval_limit = …` in `Circuit._simulate`, with
     `len(self._blocks)` = the number of ALL blocks -/
 theorem translated_eval_limit_is_model (c : Sim.Circuit) :
     Gen.Tr.evalLimit Gen.maxEvalsPerBlock c.nblocks = c.limit := rfl
+
+/-! ### the main loop `Circuit._simulate`, translated statement by statement
+
+`Gen.TrL.simInit` / `simStep` / `selectBlk` (EdzedModel/Gen/TranslatedSimulate.lean) are regenerated from
+the current AST on every run; their primitives (`queue.empty()`, `sblk.oconnections`, `cblk.eval_block()`,
+set operations, …) are parameters.  `SimTie.simPrims c en` instantiates them with the model's operations on
+masks; `en` is the iteration order of Python sets – every theorem holds for EVERY enumeration.  The
+theorems say that the translated code computes the model's `start`, `evalOp`, `idleOp` and respects the
+model's specification `selectOk` of `select_blk`: an edit of the method that changes what it does breaks
+one of them. -/
+
+/-- the statements before `while True:` compute the model's start state: `eval_limit` = the limit over ALL
+    blocks, `eval_set` = all CBlocks, `eval_cnt` = 0 -/
+theorem translated_simulate_init_is_model (c : Circuit) (en : (Nat → Bool) → List Nat) (outS : Nat → Val) :
+    (simInit (simPrims c en)).1 = c.limit ∧
+    toSt (simInit (simPrims c en)).2.1 (simInit (simPrims c en)).2.2 ⟨fun _ => .undef, outS, []⟩
+      = start c outS := by
+  rw [simInit_eq]
+  exact ⟨rfl, rfl⟩
+
+/-- `select_blk`, whatever the iteration order of the set: it returns a member (never fails its `assert` on
+    a non-empty set) that the model's specification allows – no pending input, or the minimum number when
+    every member has some -/
+theorem translated_select_blk_is_model (c : Circuit) (en : (Nat → Bool) → List Nat) (hen : Enumerates c en)
+    (E : Nat → Bool) (h : ∃ b, b < c.cblocks.length ∧ E b = true) :
+    ∃ r, selectBlk (simPrims c en) E = some r ∧ selectOk c E r = true :=
+  selectBlk_selectOk c en hen E h
+
+/-- … and it returns AT THE FIRST member without pending inputs (any primitives, any enumeration) -/
+theorem translated_select_blk_first_zero {S Blk SBlk σ ε : Type} (P : Prims S Blk SBlk σ ε) (s : S) (z : Blk)
+    (hz : (P.enum s).find? (fun x => ((P.iconnC x).filter (fun inp => P.mem inp s)).length == 0) = some z) :
+    selectBlk P s = some z :=
+  selectBlk_first_zero P s z hz
+
+/-- ONE PASS through the body of `while True:` when the loop is not at its pause IS the model's `evalOp`
+    (drain the queue – `continue` if nothing is to be evaluated – count, compare with the limit using `>`,
+    take a block out of the set, evaluate it, add its `oconnections` only when it changed) for a block `b`
+    that the specification of `select_blk` allows.  `embed` reads the model's result as the end of the
+    pass: `.ok` ↦ next pass with the new locals, nothing pending ↦ `continue`, `.instability` ↦ the
+    `EdzedCircuitError` raised with `eval_cnt` already incremented. -/
+theorem translated_simulate_step_is_model (c : Circuit) (en : (Nat → Bool) → List Nat) (hen : Enumerates c en)
+    (s : St Val) (h : pauseCond c s = false) :
+    ∃ b, (anyPending c.net (drain c.net s).E = true → s.cnt + 1 ≤ c.limit →
+            selectOk c (drain c.net s).E b = true) ∧
+      simStep (simPrims c en) c.limit s.E s.cnt (worldOf s) = embed (evalOp c s b) := by
+  rw [simStep_nopause c en s h]
+  exact simStep_j1_eq c en hen s
+
+/-- AT THE PAUSE (`not eval_set and queue.empty()`): the model's `idleOp` succeeds; the translated pass
+    suspends in `await queue.get()`; and when it is resumed with the first item `i` of a queue `i :: Q'`
+    (SBlock outputs `outS'` changed meanwhile by external events) the rest of the pass – `eval_cnt = 0`,
+    `eval_set |= i.oconnections`, drain `Q'`, … – IS the model's `evalOp` on the state `idleOp` left
+    (counter 0) with the whole queue. -/
+theorem translated_simulate_pause_is_model (c : Circuit) (en : (Nat → Bool) → List Nat) (hen : Enumerates c en)
+    (s : St Val) (h : pauseCond c s = true) :
+    idleOp c s = some { drain c.net s with cnt := 0 } ∧
+    ∃ k, simStep (simPrims c en) c.limit s.E s.cnt (worldOf s) = .await k ∧
+      ∀ (i : Nat) (Q' : List Nat) (outC' outS' : Nat → Val),
+        ∃ b, (anyPending c.net (drain c.net ⟨outC', outS', s.E, i :: Q', 0⟩).E = true → 0 + 1 ≤ c.limit →
+                selectOk c (drain c.net ⟨outC', outS', s.E, i :: Q', 0⟩).E b = true) ∧
+          k i ⟨outC', outS', Q'⟩ = embed (evalOp c ⟨outC', outS', s.E, i :: Q', 0⟩ b) := by
+  refine ⟨(pause_idle c s h).1, _, simStep_pause c en s h, ?_⟩
+  intro i Q' outC' outS'
+  obtain ⟨b, hb, heq⟩ := simStep_j1_eq c en hen ⟨outC', outS', fun x => s.E x || (c.net.succS i).contains x, Q', 0⟩
+  have hd := drain_head c outC' outS' s.E i Q' 0
+  refine ⟨b, ?_, ?_⟩
+  · rw [← hd]; exact hb
+  · rw [← evalOp_of_drain_eq c _ _ b hd]
+    exact heq
+
+/-- conversely, whenever the model pauses (`idleOp` succeeds) the loop is at its pause condition, at the
+    latest after one `continue` (the pass that drained a queue of SBlocks nobody reads) -/
+theorem translated_pause_condition_is_idleOp (c : Circuit) (s s' : St Val) (h : idleOp c s = some s') :
+    pauseCond c (drain c.net s) = true ∧ s' = { drain c.net s with cnt := 0 } :=
+  idle_pause c s s' h
+
+/-! non-vacuity on the diamond: two iteration orders, two different (both allowed) first choices -/
+
+example : Enumerates Burst.diamond0 (enumAsc Burst.diamond0) ∧ Enumerates Burst.diamond0 (enumDesc Burst.diamond0) :=
+  ⟨enumAsc_enumerates _, enumDesc_enumerates _⟩
+
+example : selectBlk (simPrims Burst.diamond0 (enumAsc Burst.diamond0)) (fun b => decide (b < 4)) = some 0
+    ∧ selectBlk (simPrims Burst.diamond0 (enumDesc Burst.diamond0)) (fun b => decide (b < 4)) = some 3
+    ∧ selectBlk (simPrims Burst.diamond0 (enumDesc Burst.diamond0)) (fun b => b == 2 || b == 1) = some 1
+    ∧ pauseCond Burst.diamond0 (start Burst.diamond0 fun _ => Val.bool false) = false := by
+  decide +kernel
+
+/-- the first pass of the translated loop on the diamond evaluates block 0 (ascending order): `eval_cnt`
+    becomes 1, block 0 leaves the set, its output becomes `not False` -/
+example :
+    (match simStep (simPrims Burst.diamond0 (enumAsc Burst.diamond0)) Burst.diamond0.limit
+        (fun b => decide (b < 4)) 0 ⟨fun _ => .undef, fun _ => Val.bool false, []⟩ with
+     | .next (E, cnt) w => cnt == 1 && !E 0 && E 1 && E 2 && E 3 && (w.outC 0 == Val.bool true)
+     | _ => false) = true := by
+  decide +kernel
 
 end Edzed.TrTie
